@@ -410,8 +410,11 @@ def check_c03(mt, sess):
             if typ == "Fallthrough" and src in proxy_fall:
                 tk = ("addr-or-proxy", ta)
             if typ.startswith("Return") and tgt[1] in after_pmark:
-                # a return site that was deleted with retarget_to_proxy
+                # a return site that was deleted with retarget_to_proxy: the
+                # return may lead there, to the proxy, or have been dropped
+                # together with other proxy return edges
                 tk = ("addr-or-proxy", ta)
+                typ = "Return?"
         elif tgt[0] == "end":
             tk = ("addr-end", tgt[1])
         elif tgt[0] == "sym":
@@ -481,7 +484,7 @@ def expected_edges_skip_pads(model, entry_toks=None):
     for s, u in model.units():
         keep = []
         for t in u.toks:
-            if t.kind == "insn" and t.ikind == "pad":
+            if t.is_bytes() and t.origin == "pad":
                 pads.append((u, t))
             keep.append(t)
     if not pads:
